@@ -257,6 +257,7 @@ func (CoreScenario) Gen(r *rand.Rand, prop string) *SvcCase {
 	}
 	if c.Epochs > 1 && chance(r, 40) {
 		c.OverlapServe = true
+		c.LingerServe = chance(r, 50)
 	}
 	if chance(r, 10) {
 		c.LosePct = 10
@@ -334,6 +335,20 @@ func (CoreScenario) Gen(r *rand.Rand, prop string) *SvcCase {
 		}
 		sortOpsByEpoch(a.Ops)
 		c.Actors = append(c.Actors, a)
+	}
+	if c.LingerServe {
+		// the epoch after a restart keeps one group busy: several callbacks
+		// that pause in their handlers, from two producers
+		if c.Workers < 2 {
+			c.Workers = 2
+		}
+		for k := 0; k < 2; k++ {
+			a := ActorSpec{Name: "twin" + strconv.Itoa(k+1)}
+			for i, n := 0, 2+r.IntN(2); i < n; i++ {
+				a.Ops = append(a.Ops, Op{ID: next(), Kind: "withgroup", Group: "lg", Ep: c.Epochs - 1, Script: []string{"y", "y"}})
+			}
+			c.Actors = append(c.Actors, a)
+		}
 	}
 	if !lifecycle && chance(r, 10) {
 		// a deep backlog: many callbacks for one group and a few for
@@ -624,6 +639,47 @@ func RunSvc(sim *sched.Sim, c *SvcCase, raceMode bool, setup func(e *Engine)) *S
 			break
 		}
 		idleTime = 0
+		lingering := c.LingerServe
+		if lingering {
+			// (until a callback of the next epoch is in the middle of its
+			// handler: then the old Serve call may make its last steps)
+			for _, t := range sim.Parked() {
+				if t.Point == "handler" {
+					lingering = false
+				}
+			}
+		}
+		{
+			// the Serve call of an epoch whose Shutdown has returned is on
+			// its way out: keep it there as long as anything else can run,
+			// and let it go first once a callback is in its handler
+			var rest, old []sched.Action
+			for _, a := range acts {
+				if !c.LingerServe {
+					break
+				}
+				held := false
+				for i, ep := range e.Epochs {
+					if ep.ShutdownReturn != 0 && i < len(e.serveTasks) && !e.serveTasks[i].IsDone() && strings.HasPrefix(a.Label, "run "+e.serveTasks[i].Name+" @") {
+						held = true
+					}
+				}
+				if !held {
+					rest = append(rest, a)
+				} else {
+					old = append(old, a)
+				}
+			}
+			if c.LingerServe && lingering && len(nonTime(rest)) > 0 {
+				if len(old) > 0 {
+					sim.Probe("old Serve call held on its way out")
+				}
+				acts = rest
+			} else if c.LingerServe && !lingering && len(old) > 0 {
+				sim.Probe("old Serve call let go while a callback of the next epoch is in its handler")
+				acts = old
+			}
+		}
 		sim.Perform(sim.Pick(acts))
 		if iter == 19999 {
 			// no run needs this many decisions: something polls forever
